@@ -325,6 +325,46 @@ fn main() {
                 }
             }
         }
+        "findcastle" => {
+            // development aid: positions in which the engine's depth-2/3 choice is a castling move (used to build
+            // corpus::CASTLE_PREFERRED, whose siblings lack exactly the right that move needs)
+            let n = arg_u64(&args, "--n", 2000);
+            let mut rng = workload::Rng::new(arg_u64(&args, "--seed", 1), 0xca);
+            let roots = ["r3k2r/p1ppqpb1/bn2pnp1/3PN3/1p2P3/2N2Q1p/PPPBBPPP/R3K2R w KQkq - 0 1", "r3k2r/pppppppp/8/8/8/8/PPPPPPPP/R3K2R w KQkq - 0 1", "r3k2r/pppq1ppp/2npbn2/2b1p3/2B1P3/2NPBN2/PPPQ1PPP/R3K2R w KQkq - 0 1", "r3k2r/8/8/8/8/8/8/R3K2R w KQkq - 0 1", "r3k2r/1pp2pp1/8/8/8/8/1PP2PP1/R3K2R b KQkq - 0 1"];
+            let mut found = std::collections::BTreeSet::new();
+            for _ in 0..n {
+                let root = *rng.pick(&roots);
+                let k = rng.below(14);
+                let pre = workload::walk(&mut rng, root, k);
+                let mut p = model::Pos::from_fen(root).unwrap();
+                for m in &pre {
+                    p.play(m);
+                }
+                if p.castling() == "-" {
+                    continue;
+                }
+                let d = rng.range(1, 3) as u8;
+                let mut c = Case::new("dev", "findcastle", 0, case::Mode::Direct);
+                c.params.max_polls = 100_000;
+                c.params.max_steps = 400_000;
+                c.items.push(case::DItem { root: root.to_string(), moves: pre.clone(), depth: Some(d), stop_at: None, fresh: true, isolated: false, sweep: None });
+                let out = exec::run_case(&c);
+                let an = oracle::analyse(&c, &out);
+                if let Some(g) = an.gos.first() {
+                    if let Some(b) = &g.best {
+                        let castle = (b == "e1g1" || b == "e1c1" || b == "e8g8" || b == "e8c8") && p.legal_moves().contains(b) && {
+                            let mut q = p.clone();
+                            q.play(b);
+                            q.castling() != p.castling()
+                        };
+                        // castling moves are king moves of two files from e1/e8 by a king
+                        if castle && found.insert(p.to_fen()) {
+                            std::println!("{} | depth {} | {}", p.to_fen(), d, b);
+                        }
+                    }
+                }
+            }
+        }
         "minimise" => {
             let inp = arg(&args, "--in").expect("--in");
             let outp = arg(&args, "--out").expect("--out");
